@@ -38,8 +38,19 @@ func (r *abort1) StoreBroadcastMessage(msg round.Message) error {
 		return round.ErrInvalidContent
 	}
 
+	if body.GammaShare == nil || body.KProof == nil || body.KProof.Plaintext == nil {
+		return round.ErrNilFields
+	}
+	// exactly one proof for every other party is needed, by Finalize as well
 	alphas := make(map[party.ID]*saferith.Int, len(body.DeltaProofs))
-	for id, deltaProof := range body.DeltaProofs {
+	for _, id := range r.PartyIDs() {
+		if id == from {
+			continue
+		}
+		deltaProof := body.DeltaProofs[id]
+		if deltaProof == nil || deltaProof.Plaintext == nil {
+			return round.ErrNilFields
+		}
 		alphas[id] = deltaProof.Plaintext
 	}
 	r.DeltaAlphas[from] = alphas
@@ -56,8 +67,8 @@ func (r *abort1) StoreBroadcastMessage(msg round.Message) error {
 		return errors.New("different BigGammaShare")
 	}
 
-	for id, deltaProof := range body.DeltaProofs {
-		if !deltaProof.Verify(r.HashForID(from), public, r.DeltaCiphertext[id][from]) {
+	for id := range alphas {
+		if !body.DeltaProofs[id].Verify(r.HashForID(from), public, r.DeltaCiphertext[id][from]) {
 			return errors.New("failed to validate Delta MtA Nth proof")
 		}
 	}
@@ -137,7 +148,11 @@ func proveNth(hash *hash.Hash, paillierSecret *paillier.SecretKey, c *paillier.C
 }
 
 func (msg *abortNth) Verify(hash *hash.Hash, paillierPublic *paillier.PublicKey, c *paillier.Ciphertext) bool {
-	if msg == nil || !arith.IsValidNatModN(paillierPublic.ModulusSquared().Modulus, msg.Nonce) || msg.Plaintext == nil {
+	if msg == nil || c == nil || !arith.IsValidNatModN(paillierPublic.ModulusSquared().Modulus, msg.Nonce) || msg.Plaintext == nil {
+		return false
+	}
+	// the plaintext is encrypted again below
+	if !paillierPublic.ValidatePlaintext(msg.Plaintext) {
 		return false
 	}
 	one := new(saferith.Nat).SetUint64(1)
